@@ -5,8 +5,8 @@ from __future__ import annotations
 
 import z3
 
-from pyvc.api import A, FnSpec
-from pyvc.containers import STR, SMap, SObj
+from pyvc.api import A, FnSpec, LoopSpec
+from pyvc.containers import STR, SMap, SObj, SSet
 from pyvc.engine import KwDict, SClass
 from pyvc.values import SBool, SStr, SVal, Unsupported, fresh_name
 
@@ -439,6 +439,404 @@ class OverrideConsts(FnSpec):
         ]
 
 
+# ---- override check (C13) -------------------------------------------------------------------
+
+Hint = z3.DeclareSort("TypeHint")
+SUBTYPE = z3.Function("is_subtype", Hint, Hint, z3.BoolSort())  # util.typing.is_subtype (runtype / typing based; bounded tier)
+PUBLIC = z3.Function("is_public_name", z3.StringSort(), z3.BoolSort())
+CLASSVAR = z3.Function("is_classvar", Hint, z3.BoolSort())
+
+
+class THint:
+    def sort(self):
+        return Hint
+
+    def wrap(self, t):
+        return HintVal(t)
+
+    def unwrap(self, cx, v):
+        if isinstance(v, HintVal):
+            return v.t
+        raise Unsupported("not a type hint")
+
+
+class HintVal(SVal):
+    def __init__(self, t):
+        self.t = t
+
+
+def schema_cls(cx):
+    sch = ClsObj("SchemaCls", name="schema")
+    sch.fields["__name__"] = "Schema"
+    sch.fields["_typehints"] = SMap.fresh(STR, THint(), "typehints")
+    sch.fields["_base_typehints"] = SMap.fresh(STR, THint(), "base_typehints")
+    sch.fields["__constants__"] = SMap.fresh(STR, TConst(), "constants")
+    sch.fields["__overrides__"] = SSet.fresh(STR, "declared_overrides")
+    sch.anns = SMap.fresh(STR, THint(), "own_annotations")
+    base = ClsObj("SchemaCls", name="base")
+    base.fields["__name__"] = "Base"
+    sch.fields["__base__"] = base
+    return sch
+
+
+def actual_override(sch, k):
+    """field k is (re)declared by the class itself as a public, non-ClassVar, non-constant field and the bases have it too"""
+    an = sch.anns
+    return z3.And(an.has(k), PUBLIC(k), z3.Not(CLASSVAR(an.get_term(k))), z3.Not(sch.fields["__constants__"].has(k)), sch.fields["_base_typehints"].has(k))
+
+
+class IsPubInstanceField(FnSpec):
+    file = "schema/core.py"
+    qual = "is_pub_instance_field"
+    props = ("C13",)
+    pure = True
+
+    def init(self):
+        self.bindings["is_public_name"] = lambda cx, n: SBool(PUBLIC(n.t))
+        self.bindings["is_classvar"] = lambda cx, h: SBool(CLASSVAR(h.t))
+
+    def setup(self, cx):
+        return A(schema=schema_cls(cx), name=SStr(z3.String("fname")), hint=HintVal(z3.Const("fhint", Hint)))
+
+    def expected(self, a):
+        return z3.And(PUBLIC(a.name.t), z3.Not(CLASSVAR(a.hint.t)), z3.Not(a.schema.fields["__constants__"].has(a.name.t)))
+
+    def result(self, cx, a):
+        return SBool(self.expected(a))
+
+    def ensures(self, cx, a, res):
+        from .c16 import is_bool_eq
+
+        return [("public-instance-non-constant", is_bool_eq(res, self.expected(a)), "a field counts iff it is public, not a ClassVar and not a declared constant")]
+
+
+class DetectFieldOverrides(FnSpec):
+    file = "schema/core.py"
+    qual = "detect_field_overrides"
+    props = ("C13",)
+
+    def init(self):
+        from pyvc.api import set_keys_filter
+
+        self.bindings["get_annotations"] = lambda cx, sch: sch.anns
+        self.comps[0] = set_keys_filter
+
+    def setup(self, cx):
+        return A(schema=schema_cls(cx))
+
+    def result(self, cx, a):
+        return SSet.fresh(STR, "actual_overrides")
+
+    def ensures(self, cx, a, res):
+        k = z3.String(fresh_name("fk"))
+        if not isinstance(res, SSet):
+            return [("returns-a-set", z3.BoolVal(False), "set of field names")]
+        return [("exactly-the-redeclared-inherited-fields", z3.ForAll([k], res.has(k) == actual_override(a.schema, k)), "EVERY field the class redeclares although a base has it is detected as an override (public instance fields that are not constants), nothing else")]
+
+
+class CheckOverrides(FnSpec):
+    file = "schema/core.py"
+    qual = "check_overrides"
+    props = ("C13",)
+
+    def init(self):
+        self.bindings["is_subtype"] = lambda cx, h, ph: SBool(SUBTYPE(h.t, ph.t))
+        self.bindings["infer_parent"] = lambda cx, sch: None
+        self.bindings["repr"] = lambda cx, o: "<schema>"
+
+        def inv(cx, env, it):
+            sch = cx.ghost["co"].schema
+            k = z3.String(fresh_name("lk"))
+            return [("visited-overrides-are-subtypes", z3.ForAll([k], z3.Implies(z3.Select(it.processed, k), SUBTYPE(sch.fields["_typehints"].get_term(k), sch.fields["_base_typehints"].get_term(k)))))]
+
+        self.loops[0] = LoopSpec(inv, modifies=["fname", "hint", "parent_hint"])
+
+    def setup(self, cx):
+        a = A(schema=schema_cls(cx))
+        cx.ghost["co"] = a
+        return a
+
+    def requires(self, cx, a):
+        k = z3.String(fresh_name("rk"))
+        sch = a.schema
+        return [("own-annotations-have-resolved-hints", z3.ForAll([k], z3.Implies(sch.anns.has(k), sch.fields["_typehints"].has(k))))]
+
+    def _conds(self, a):
+        sch = a.schema
+        k = z3.String(fresh_name("ek"))
+        ov, base, th = sch.fields["__overrides__"], sch.fields["_base_typehints"], sch.fields["_typehints"]
+        bad_decl = z3.Exists([k], z3.And(ov.has(k), z3.Or(z3.Not(base.has(k)), z3.Not(actual_override(sch, k)))))
+        k2 = z3.String(fresh_name("ek"))
+        widened = z3.Exists([k2], z3.And(actual_override(sch, k2), z3.Not(ov.has(k2)), z3.Not(SUBTYPE(th.get_term(k2), base.get_term(k2)))))
+        return bad_decl, widened
+
+    def raises(self, cx, a):
+        bad_decl, widened = self._conds(a)
+        return {"ValueError": bad_decl, "TypeError": z3.And(z3.Not(bad_decl), widened)}
+
+    def ensures(self, cx, a, res):
+        sch = a.schema
+        k = z3.String(fresh_name("pk"))
+        ov, base, th = sch.fields["__overrides__"], sch.fields["_base_typehints"], sch.fields["_typehints"]
+        return [
+            ("undeclared-overrides-are-subtypes", z3.ForAll([k], z3.Implies(z3.And(actual_override(sch, k), z3.Not(ov.has(k))), SUBTYPE(th.get_term(k), base.get_term(k)))), "a class that overrides an inherited field with a type that is not a subtype of the inherited one is refused unless the override is declared"),
+            ("declarations-are-real", z3.ForAll([k], z3.Implies(ov.has(k), actual_override(sch, k))), "a declared override names a field that really is overridden"),
+        ]
+
+
+# ---- is_subtype: soundness reduces to runtype's soundness (C13) ------------------------------------
+
+ANNOT = z3.Function("hint_is_Annotated", Hint, z3.BoolSort())
+LITER = z3.Function("hint_is_Literal", Hint, z3.BoolSort())
+ARG0 = z3.Function("hint_first_arg", Hint, Hint)
+FInfos = z3.DeclareSort("FieldInfoReprs")
+FIS = z3.Function("field_info_reprs_of_annotated", Hint, FInfos)  # reprs of the pydantic FieldInfo annotations (all set constraints)
+RV_SUB = z3.Function("runtype_is_subtype", Hint, Hint, z3.BoolSort())
+ADMITS_SUBSET = z3.Function("every_value_of_first_is_value_of_second", Hint, Hint, z3.BoolSort())
+
+T_SUBTYPE = [
+    "runtype.validation.is_subtype is sound on un-annotated hints: True only if every value of the first type is a value of the second (opaque library; exercised by the bounded tier over the type grammar)",
+    "Annotated[T, FieldInfo...] admits the values of T that satisfy the listed constraints, so equal constraint lists over T1 <= T2 give Annotated[T1,..] <= Annotated[T2,..] (pydantic semantics, T5)",
+    "typing get_origin/get_args (is_annotated, is_literal, get_args) are CPython's",
+]
+
+
+class ArgsVal(SVal):
+    def __init__(self, h):
+        self.h = h
+
+    def py_getitem(self, cx, idx):
+        from pyvc.values import SliceVal
+
+        if isinstance(idx, SliceVal):
+            if (idx.lo, idx.hi, idx.step) == (1, None, None):
+                return RestArgs(self.h)
+            raise Unsupported("slice of type arguments")
+        if idx == 0:
+            cx.decide_or_fail(ANNOT(self.h), "IndexError", "get_args of a non-parametrised hint is empty")
+            return HintVal(ARG0(self.h))
+        raise Unsupported("other type argument")
+
+
+class RestArgs(SVal):
+    def __init__(self, h):
+        self.h = h
+
+
+class FIList(SVal):
+    def __init__(self, t):
+        self.t = t
+
+    def py_eq(self, cx, o):
+        return isinstance(o, FIList) and self.t == o.t
+
+
+def field_infos_schema(interp, cx, fr, e):
+    src = interp.eval(cx, fr, e.generators[0].iter)
+    if not isinstance(src, RestArgs):
+        raise Unsupported("field_infos over something else than the annotation arguments")
+    cond = [ast_unparse(c) for c in e.generators[0].ifs]
+    if cond != ["type(a).__name__ == 'FieldInfo'"] or ast_unparse(e.elt) != "repr(a)":
+        from pyvc.api import ContractStale
+
+        raise ContractStale("field_infos: the comprehension no longer collects repr(a) of exactly the FieldInfo annotations")
+    return FIList(FIS(src.h))
+
+
+def ast_unparse(n):
+    import ast
+
+    return ast.unparse(n)
+
+
+class IsSubtype(FnSpec):
+    file = "util/typing.py"
+    qual = "is_subtype"
+    props = ("C13",)
+    recursive = True
+
+    def init(self):
+        self.bindings["is_annotated"] = lambda cx, h: SBool(ANNOT(h.t))
+        self.bindings["is_literal"] = lambda cx, h: SBool(LITER(h.t))
+        self.bindings["get_args"] = lambda cx, h: ArgsVal(h.t)
+        self.bindings["rv"] = RvStub()
+        self.comps[("is_subtype.<locals>.field_infos", 0)] = field_infos_schema
+
+    def setup(self, cx):
+        a, b, c = z3.Consts("h_a h_b h_c", Hint)
+        # semantic facts the soundness argument rests on (listed as trusted)
+        cx.assume(z3.ForAll([a, b], z3.Implies(z3.And(z3.Not(ANNOT(a)), z3.Not(ANNOT(b)), LITER(a) == LITER(b), RV_SUB(a, b)), ADMITS_SUBSET(a, b))))
+        cx.assume(z3.ForAll([a, b], z3.Implies(z3.And(ANNOT(a), ANNOT(b), FIS(a) == FIS(b), ADMITS_SUBSET(ARG0(a), ARG0(b))), ADMITS_SUBSET(a, b))))
+        return A(sub=HintVal(z3.Const("sub", Hint)), base=HintVal(z3.Const("base", Hint)))
+
+    def result(self, cx, a):
+        return SBool(z3.Bool(fresh_name("is_subtype_result")))
+
+    def ensures(self, cx, a, res):
+        if isinstance(res, bool):
+            r = z3.BoolVal(res)
+        elif isinstance(res, SBool):
+            r = res.t
+        elif z3.is_bool(res):
+            r = res
+        else:
+            return [("returns-bool", z3.BoolVal(False), "a truth value")]
+        s, b = a.sub.t, a.base.t
+        return [
+            ("sound", z3.Implies(r, ADMITS_SUBSET(s, b)), "is_subtype(sub, base) is True only if every value sub admits is admitted by base (given runtype's soundness on plain hints and equal constraint lists on Annotated ones)"),
+            ("wrapping-must-agree", z3.Implies(r, z3.And(ANNOT(s) == ANNOT(b), LITER(s) == LITER(b))), "an Annotated/Literal hint is never accepted against a plain one (or vice versa)"),
+            ("constraints-must-agree", z3.Implies(z3.And(r, ANNOT(s)), FIS(s) == FIS(b)), "constrained types are accepted only with identical constraint lists"),
+        ]
+
+
+class RvStub(SVal):
+    def meth_is_subtype(self, cx, s, b):
+        return SBool(RV_SUB(s.t, b.t))
+
+
+# ---- SchemaMagic.__new__: what a child class may not do (C13) --------------------------------------
+
+
+class ExtraVal(SVal):
+    """a member of pydantic's Extra enum (allow / ignore / forbid)"""
+
+    def __init__(self, t):
+        self.t = t
+
+    def py_is(self, cx, o):
+        return isinstance(o, ExtraVal) and self.t == o.t
+
+    def py_truth(self, cx):
+        return True
+
+    def py_getattr(self, cx, name):
+        if name == "value":
+            return SStr(z3.String(fresh_name("extra_value")))
+        raise Unsupported("Extra." + name)
+
+
+FORBID = z3.IntVal(2)
+
+
+class ExtraEnum(SVal):
+    def py_getattr(self, cx, name):
+        return ExtraVal({"allow": z3.IntVal(0), "ignore": z3.IntVal(1), "forbid": FORBID}[name])
+
+
+def special_attrs():
+    """names annotated on SchemaBase in the real source (its class-level bookkeeping attributes)"""
+    import ast
+
+    from pyvc.api import SRC
+
+    tree = ast.parse(open(SRC / "schema/core.py").read())
+    for n in tree.body:
+        if isinstance(n, ast.ClassDef) and n.name == "SchemaBase":
+            return [st.target.id for st in n.body if isinstance(st, ast.AnnAssign) and isinstance(st.target, ast.Name)]
+    return []
+
+
+class SchemaMagicNew(FnSpec):
+    file = "schema/core.py"
+    qual = "SchemaMagic.__new__"
+    props = ("C13",)
+
+    def init(self):
+        self.bindings["Extra"] = ExtraEnum()
+        self.bindings["is_public_name"] = lambda cx, n: SBool(PUBLIC(n.t if isinstance(n, SStr) else z3.StringVal(n)))
+        self.bindings["get_annotations"] = lambda cx, c: c.anns
+        sb = ClsObj("SchemaBaseCls", name="SchemaBase")
+        sb.fields["__annotations__"] = {k: None for k in special_attrs()}
+        self.bindings["SchemaBase"] = sb
+
+    def setup(self, cx):
+        base = ClsObj("SchemaCls", name="base")
+        base.fields["__constants__"] = SMap.fresh(STR, TConst(), "base_constants")
+        base.fields["__fields__"] = SMap.fresh(STR, THint(), "base_fields")
+        bconf = SObj("Config", name="base_config")
+        bconf.fields["extra"] = ExtraVal(z3.Int("base_extra"))
+        base.fields["__config__"] = bconf
+        nb = 1 + cx.choose(2)
+        bases = (base,) if nb == 1 else (base, ClsObj("SchemaCls", name="second_base"))
+        ret = ClsObj("SchemaCls", name="new_class")
+        ret.anns = SMap.fresh(STR, THint(), "new_annotations")
+        ret.fields["__fields__"] = SMap.fresh(STR, THint(), "new_fields")
+        rconf = SObj("Config", name="new_config")
+        rconf.fields["extra"] = ExtraVal(z3.Int("new_extra"))
+        ret.fields["__config__"] = rconf
+        dct = SMap.fresh(STR, TConst(), "class_namespace")
+        conf_shape = cx.choose(2)
+        a = A(cls=ClsObj("Meta", name="cls"), name="N", bases=bases, dct=NamespaceDict(dct, conf_shape))
+        a.base, a.ret, a.ns, a.conf_shape = base, ret, dct, conf_shape
+        cx.ghost["smn"] = a
+        return a
+
+    def _conds(self, a):
+        k = z3.String(fresh_name("nk"))
+        special = z3.Or(*[a.ns.has(z3.StringVal(n)) for n in special_attrs()])
+        conf_bad = z3.BoolVal(False) if a.conf_shape == 0 else z3.And(PUBLIC(CONF_FIELD), z3.Not(z3.Or(*[CONF_FIELD == z3.StringVal(x) for x in ("title", "extra", "allow_mutation")])))
+        const_redefined = z3.Exists([k], z3.And(a.base.fields["__constants__"].has(k), a.ret.anns.has(k)))
+        k2 = z3.String(fresh_name("nk"))
+        forbids = a.base.fields["__config__"].fields["extra"].t == FORBID
+        loosened = z3.And(forbids, z3.Or(a.ret.fields["__config__"].fields["extra"].t != FORBID, z3.Exists([k2], z3.And(a.ret.fields["__fields__"].has(k2), z3.Not(a.base.fields["__fields__"].has(k2))))))
+        return special, conf_bad, const_redefined, loosened
+
+    def raises(self, cx, a):
+        if len(a.bases) > 1:
+            return {"TypeError": z3.BoolVal(True)}
+        return {"TypeError": z3.Or(*self._conds(a))}
+
+    def ensures(self, cx, a, res):
+        special, conf_bad, const_redefined, loosened = self._conds(a)
+        made = [e for e in cx.fx if e[0] == "pydantic-new"]
+        return [
+            ("single-parent", z3.BoolVal(len(a.bases) == 1), "a schema has exactly one parent schema"),
+            ("returns-the-pydantic-class", z3.BoolVal(res is a.ret and len(made) == 1), "the class is pydantic's model class for the same name, bases and namespace"),
+            ("bookkeeping-attributes-not-user-defined", z3.Not(special), "the internal bookkeeping attributes cannot be set by hand"),
+            ("config-only-in-allowed-fields", z3.Not(conf_bad), "only title/extra/allow_mutation of the pydantic config may be changed"),
+            ("parent-constants-not-redefined", z3.Not(const_redefined), "a field that is a constant of the parent cannot be redefined"),
+            ("extra-field-policy-not-loosened", z3.Not(loosened), "if the parent forbids extra fields the child forbids them too and adds no fields, so every child instance stays parsable by the parent"),
+        ]
+
+
+CONF_FIELD = z3.String("config_attribute_name")
+
+
+class NamespaceDict(SVal):
+    """class namespace `dct`: symbolic membership, and optionally a Config class with one generic attribute"""
+
+    def __init__(self, m, conf_shape):
+        self.m, self.conf_shape = m, conf_shape
+
+    def py_contains(self, cx, k):
+        return self.m.py_contains(cx, k)
+
+    def meth_get(self, cx, k, default=None):
+        if k != "Config":
+            raise Unsupported("namespace lookup of " + repr(k))
+        if self.conf_shape == 0:
+            return None
+        c = ClsObj("UserConfig", name="Config")
+        c.fields["__dict__"] = {SStrKey(CONF_FIELD): None}
+        return c
+
+
+class SStrKey(SStr):
+    concrete_key = True
+
+    def __hash__(self):
+        return 1
+
+    def __eq__(self, o):
+        return self is o
+
+
+def pydantic_new(cx, obj, cls, name, bases, dct):
+    a = cx.ghost["smn"]
+    cx.effect("pydantic-new", name, bases)
+    return a.ret
+
+
 def build_c12(reg):
     reg.set_class_home("SchemaMagicInstance", "schema/core.py", "SchemaMagic")
     reg.set_class_home("DynEncMetaInstance", "schema/encoder.py", "DynJsonEncoderMetaMixin")
@@ -458,7 +856,8 @@ def build_c12(reg):
 
 
 def build_c13(reg):
-    specs = [CheckTypes()]
+    reg.method_bindings[("SchemaMagic", "super.__new__")] = pydantic_new
+    specs = [CheckTypes(), IsPubInstanceField(), DetectFieldOverrides(), CheckOverrides(), IsSubtype(), SchemaMagicNew()]
     for s in specs:
         reg.add(s)
     return specs
